@@ -1,0 +1,92 @@
+//go:build verif
+
+package configloader
+
+// Contracts for fvc (see /verif/DESIGN.md). Comment-only file.
+//@ import v1 "k8s.io/api/core/v1"
+
+// A layer source. ASSUMED: Load does not modify anything the manager can see; the map it returns may be the loader's own cache.
+//@ extern func iface github.com/furiko-io/furiko/pkg/runtime/configloader.Loader.Load
+//@   params recv, configName
+//@ extern func iface github.com/furiko-io/furiko/pkg/runtime/configloader.Loader.Name
+//@   params recv
+
+// mergo.Merge(&dst, src, WithOverride) writes only into the destination map (and maps nested in it). ASSUMED (dependency,
+// reflection): key-wise overlay in which the source wins, also with zero, false and empty values.
+//@ pure overlay(base Array[string]any, layer Array[string]any) Array[string]any
+//@ extern func github.com/imdario/mergo.Merge
+//@   params dst, src, opts
+//@   modifies mapof(*unbox(dst, *Config))
+
+// The effective configuration map: every layer merged, lowest priority first, onto a map of its own; no layer's map is written.
+//@ func ConfigManager.loadConfig
+//@   tags C19
+//@   requires c != nil
+//@   loop 1 invariant -1 <= rangeindex && rangeindex < len(c.loaders) && res != nil && fresh(res)
+//@   ensures [C19] merged-onto-a-map-of-its-own: err == nil ==> res != nil && fresh(res)
+//@   ensures [C19] not-started-is-an-error: !c.started ==> err != nil
+//@   ensures [C19] no-partial-result: err != nil ==> res == nil
+
+// Loading and decoding one configuration (mapstructure over the merged map): ASSUMED total; its outcome is recorded in a ghost
+//@ ghost var lastLoadErr error
+//@ extern func ConfigManager.loadAndUnmarshalConfigWithError
+//@   params c, configName, out
+//@   modifies lastLoadErr
+//@   ensures lastLoadErr == result
+
+// Degradation (C19): a good load is remembered as the last known good value; a bad load hands out the remembered value
+// (written over out as a whole through reflection) and reports no error; without a remembered value the error is returned.
+//@ func ConfigManager.LoadAndUnmarshalConfig
+//@   tags C19
+//@   requires c != nil
+//@   assumes out-is-a-pointer: isPtrVal(out)
+//@   modifies lastLoadErr, smHas, smVal, rsetN, rsetDst, rsetSrc
+//@   ensures [C19] good-load-is-remembered: lastLoadErr == nil ==> result == nil && smHas[addr(c.cache)][iface(configName)] && smVal[addr(c.cache)][iface(configName)] == out && rsetN == old(rsetN)
+//@   ensures [C19] bad-load-falls-back-to-last-good: lastLoadErr != nil && old(smHas[addr(c.cache)][iface(configName)]) ==> result == nil && rsetN == old(rsetN) + 1 && rsetDst[old(rsetN)] == elemOf(out)
+//@        && (rsetSrc[old(rsetN)] == old(smVal[addr(c.cache)][iface(configName)]) || rsetSrc[old(rsetN)] == elemOf(old(smVal[addr(c.cache)][iface(configName)])))
+//@   ensures [C19] bad-load-without-history-is-reported: lastLoadErr != nil && !old(smHas[addr(c.cache)][iface(configName)]) ==> result != nil && rsetN == old(rsetN)
+//@   ensures [C19] bad-load-never-overwrites-the-remembered-value: lastLoadErr != nil ==> smHas == old(smHas) && smVal == old(smVal)
+
+// ---- a source's content is replaced only as a whole, and only when all of it parses (C19) ---------------------------------------
+// YAML/JSON decoding of one entry: ASSUMED a deterministic partial function of the text
+//@ pure entryOK(data string) bool
+//@ pure entryOf(data string) Config
+//@ extern func ConfigMapLoader.unmarshal
+//@   params c, data
+//@   ensures (result1 == nil) == entryOK(data)
+//@   ensures result1 == nil ==> result0 == entryOf(data)
+//@ extern func github.com/furiko-io/furiko/pkg/utils/eventhandler.Corev1ConfigMap
+//@   params obj
+//@   ensures result1 == nil ==> result0 != nil
+//@   ensures result1 != nil ==> result0 == nil
+//@   ensures result1 == nil && typeis(obj, *v1.ConfigMap) ==> result0 == unbox(obj, *v1.ConfigMap)
+
+//@ func newConfigCache
+//@   fresh result
+//@   ensures result != nil && result.m != nil && fresh(result.m)
+//@ func configCache.Store
+//@   requires c != nil
+//@   modifies smHas, smVal
+//@   ensures smHas == store(old(smHas), c.m, store(old(smHas)[c.m], iface(configName), true)) && smVal == store(old(smVal), c.m, store(old(smVal)[c.m], iface(configName), iface(config)))
+
+//@ pure holdsAll(cc *configCache, data map[string]string) bool = forall k string :: (k in data) ==> entryOK(data[k])
+//@     && smHas[cc.m][iface(configv1alpha1.ConfigName(k))] && smVal[cc.m][iface(configv1alpha1.ConfigName(k))] == iface(entryOf(data[k]))
+
+//@ func ConfigMapLoader.unmarshalConfigMap
+//@   tags C19
+//@   modifies smHas, smVal
+//@   loop 1 invariant newConfigMap != nil && fresh(newConfigMap) && newConfigMap.m != nil && fresh(newConfigMap.m)
+//@   loop 1 invariant forall k string :: visited(k) ==> entryOK(data[k]) && smHas[newConfigMap.m][iface(configv1alpha1.ConfigName(k))] && smVal[newConfigMap.m][iface(configv1alpha1.ConfigName(k))] == iface(entryOf(data[k]))
+//@   loop 1 invariant forall m *sync.Map :: m != newConfigMap.m ==> smHas[m] == old(smHas[m]) && smVal[m] == old(smVal[m])
+//@   ensures [C19] all-or-nothing: result1 != nil ==> result0 == nil
+//@   ensures [C19] whole-content-parsed: result1 == nil ==> result0 != nil && fresh(result0) && fresh(result0.m) && holdsAll(result0, data)
+//@   ensures [C19] other-caches-untouched: forall m *sync.Map :: old(allocated(m)) ==> smHas[m] == old(smHas[m]) && smVal[m] == old(smVal[m])
+
+//@ func ConfigMapLoader.handleUpdate
+//@   tags C19
+//@   requires c != nil
+//@   modifies c.cache, smHas, smVal
+//@   ensures [C19] replaced-only-by-a-fully-parsed-snapshot-of-the-watched-object: c.cache != old(c.cache) && typeis(obj, *v1.ConfigMap) ==>
+//@        unbox(obj, *v1.ConfigMap).Name == c.name && unbox(obj, *v1.ConfigMap).Namespace == c.namespace && holdsAll(c.cache, unbox(obj, *v1.ConfigMap).Data)
+//@   ensures [C19] replaced-only-as-a-whole: c.cache != old(c.cache) ==> fresh(c.cache) && fresh(c.cache.m)
+//@   ensures [C19] previous-snapshot-untouched: forall m *sync.Map :: old(allocated(m)) ==> smHas[m] == old(smHas[m]) && smVal[m] == old(smVal[m])
